@@ -6,6 +6,17 @@ def classify(sig, what):
         return 'N2: a valid document whose names (' + body[5:] + ', placed in every name position) start with a digit, contain a backtick or contain non-ASCII letters makes generate ' + target + ' fail with a source-formatting error on its own output (' + msg + '): the name manglers produce an identifier starting with a digit / cut a multi-byte rune / leave the backtick inside a raw string. The property demands success for any name with a letter.'
     if 'nondeterministic outcome' in sig:
         return 'ND1: the generator output for this target is not a function of its input: the same document sometimes yields code that builds and sometimes code that does not (map-iteration order inside the generator, see C07); observed e.g. on two-hop $ref chains (m.P == nil on a non-pointer alias) and on cli imports.'
+    if body.startswith('ext:'):
+        e = body[4:]
+        if 'ref of ref (alias definition)' in e:
+            return 'XG1: a definition that is only a $ref to a definition carrying x-go-type (an external type) is rendered as `type User = Ext`, but no type is generated for the external definition Ext (the docs: "such definitions do not produce any generated model" and every reference is replaced by the external type): "undefined: Ext"; generate ' + target + ' exits 0 and the package does not compile (' + e + ').'
+        if 'kind interface' in e and ('required' in e or 'body parameter' in e):
+            return 'XG2: x-go-type with hints.kind: interface (documented: "external types with an hint type interface or stream do not call validations") used through a $ref as a REQUIRED property / required body still gets a .Validate(formats) call on the external type (json.RawMessage has no such method); exits 0, does not compile (' + e + ').'
+        if 'noValidation' in e:
+            return 'XG3: the documented hint x-go-type.hints.noValidation: true is honoured for properties, items and map values but not where the external type is an allOf member (m.NoValidate.Validate) or a body parameter of the generated server/client (body.Validate): the generated code calls Validate on a type that has none; exits 0, does not compile (' + e + ').'
+        if kind == 'generate-fails':
+            return 'XG4: generate ' + target + ' fails on a valid document using the documented x-go-type extension (' + e + '): ' + msg
+        return 'XG5: generate ' + target + ' exits 0 on a document using the documented x-go-type / struct-tag extensions (' + e + ') but the generated code does not compile (' + msg + ').'
     if target == 'model' and 'poly>' in body:
         return 'PB1: a discriminated base type used inside a composition other than a plain property or array property - member of an allOf next to a $ref, top-level array alias, additionalProperties next to declared properties, tuple item - is rendered by templates that treat the interface type like a struct (petField of an embedded member, methods on an interface receiver, pointer to interface, assignment to a getter): generate model exits 0 and the package does not compile (' + body + ': ' + msg + ').'
     if target == 'model' and 'tuple' in body:
